@@ -437,6 +437,64 @@ fn occurs_case(ctx: &Ctx, ch: &mut Ch) -> Outcome {
     }
 }
 
+/// A hole that was solved where `l0` abstract variables were in scope occurs again, with shift
+/// `s`, after `s` more context entries - some of them definitions - were pushed. Read there, it
+/// denotes its solution shifted by `s`: it unifies with exactly that, and (being an abstract
+/// variable) with neither `int` nor `bool`, whatever the definitions in between are.
+fn solved_hole_case(ctx: &Ctx, ch: &mut Ch) -> Outcome {
+    let l0 = 1 + ch.pick(3);
+    let s = 1 + ch.pick(3);
+    let k = ch.pick(l0);
+    let defs: Vec<usize> = (0..s).map(|_| ch.pick(4)).collect();
+    let flip = ch.chance(1, 2);
+    let which = ch.pick(3);
+    let input = format!("context: {l0} abstract variable(s), then {:?}; hole solved by variable #{k} there, read with shift {s}; compared with {}{}", defs.iter().map(|d| ["an abstract variable", "x = int", "x = bool", "x = the variable before it"][*d]).collect::<Vec<_>>(), ["its shifted solution", "int", "bool"][which], if flip { " (sides swapped)" } else { "" });
+    ctx.announce(true, None, &input);
+    let r: Result<Result<&'static str, Failure>, String> = catch(|| {
+        let t = |v: Variant<'static>| Term { source_range: None, variant: v };
+        let mut dctx: Vec<Option<(Rc<Term<'static>>, usize)>> = vec![None; l0];
+        for d in &defs {
+            dctx.push(match d {
+                0 => None,
+                1 => Some((Rc::new(t(Variant::Integer)), 1)),
+                2 => Some((Rc::new(t(Variant::Boolean)), 1)),
+                // A definition is scoped in the context up to and including itself (offset 1):
+                // index 1 is the entry before it.
+                _ => Some((Rc::new(t(Variant::Variable("v", 1))), 1)),
+            });
+        }
+        let cell: Cell<'static> = Rc::new(RefCell::new(Some(t(Variant::Variable("a", k)))));
+        let read = t(Variant::Unifier(cell.clone(), s));
+        let other = match which {
+            0 => t(Variant::Variable("a", k + s)),
+            1 => t(Variant::Integer),
+            _ => t(Variant::Boolean),
+        };
+        let before = dctx.len();
+        let ok = if flip { unify(&other, &read, &mut dctx) } else { unify(&read, &other, &mut dctx) };
+        if dctx.len() != before {
+            return Err(Failure::new("unify left the definitions context with a different length", input.clone()));
+        }
+        match (which, ok) {
+            (0, false) => Err(Failure::new("a solved hole read under more binders does not unify with its own solution shifted accordingly", input.clone())),
+            (1 | 2, true) => Err(Failure::new("a solved hole whose solution is an abstract variable unifies with a base type (the solution was looked up in the wrong scope)", input.clone())),
+            (0, true) => Ok("solved hole under definitions: equals its shifted solution"),
+            _ => Ok("solved hole under definitions: differs from a base type"),
+        }
+    });
+    match r {
+        Err(p) => Err(Failure::new(format!("panic: {p}"), input).with_sig("panic")),
+        Ok(Err(f)) => Err(f),
+        Ok(Ok(class)) => {
+            ctx.class(class);
+            if defs.iter().any(|d| *d != 0) {
+                ctx.nontrivial(&input);
+            }
+            Ok(())
+        }
+    }
+}
+
 pub const SIG_CHAIN: &str = "solution-escapes-scope-through-a-later-solved-hole";
 
 /// Two successive calls: first `?h1` (written `s1` binders below the scope its content lives in) is
@@ -531,7 +589,7 @@ pub fn def(tier: Tier) -> CheckDef {
     CheckDef {
         id: "C12",
         level: "exploration",
-        rule: "patterns made from closed, fully annotated, type-directed generated programs (no recursion) by replacing 1-4 disjoint subterms at arbitrary positions and binder depths with holes `Unifier(cell, shift)`: shift chosen so that the removed subterm can be lowered by it (solvable), or cannot (scope escape), one cell used at two places whose outer scopes coincide (non-linear), in both argument orders, against the original term, a reduct, an unrelated term of the same kind of type, or another pattern; with and without a definitions context (the enclosing group's definitions with their offsets); plus occurs-check shapes `?h` vs `C[?h]` for seven constructor contexts, directly and through a chain of solved holes; and two-call histories in which a hole is first solved by a term containing a second hole that a later call solves by a variable; oracle when unify returns true: no solved cell is reachable from its own content, every solution's free indices are below (scope length at the hole - shift) for every occurrence, and the two sides with the solutions read in are convertible by NbE; the definitions context keeps its length; non-trivial = a hole under a binder with shift >= 1, a non-linear, scope-escape or occurs shape; the evidence reports how often solvable first-order patterns unify with their own instance; distinct by text and classes",
+        rule: "patterns made from closed, fully annotated, type-directed generated programs (no recursion) by replacing 1-4 disjoint subterms at arbitrary positions and binder depths with holes `Unifier(cell, shift)`: shift chosen so that the removed subterm can be lowered by it (solvable), or cannot (scope escape), one cell used at two places whose outer scopes coincide (non-linear), in both argument orders, against the original term, a reduct, an unrelated term of the same kind of type, or another pattern; with and without a definitions context (the enclosing group's definitions with their offsets); plus occurs-check shapes `?h` vs `C[?h]` for seven constructor contexts, directly and through a chain of solved holes; and two-call histories in which a hole is first solved by a term containing a second hole that a later call solves by a variable; oracle when unify returns true: no solved cell is reachable from its own content, every solution's free indices are below (scope length at the hole - shift) for every occurrence, and the two sides with the solutions read in are convertible by NbE; the definitions context keeps its length; non-trivial = a hole under a binder with shift >= 1, a non-linear, scope-escape or occurs shape; the evidence reports how often solvable first-order patterns unify with their own instance; distinct by text and classes; plus a hole solved by an abstract variable and read again, with shift s, after s more context entries (abstract variables or definitions `= int`, `= bool`, `= the variable before`) were pushed: it must unify with its shifted solution and with neither base type",
         assumptions: vec!["when unify returns false nothing is demanded (higher-order and non-pattern cases are legitimately given up)"],
         idle_limit_s: 120,
         needs_cli: false,
@@ -552,6 +610,15 @@ pub fn def(tier: Tier) -> CheckDef {
                 run: Box::new(|ctx, r| ctx.prop("chained", r, 200, 8, chained_case)),
                 replay: Some(Box::new(|ctx, inp| match inp {
                     ReplayInput::Choices(c) => chained_case(ctx, &mut Ch::new(c)),
+                    _ => Err(Failure::new("this part replays from choices", "")),
+                })),
+            },
+            Part {
+                name: "solved-hole",
+                rounds: 1,
+                run: Box::new(|ctx, r| ctx.prop("solved-hole", r, 400, 24, solved_hole_case)),
+                replay: Some(Box::new(|ctx, inp| match inp {
+                    ReplayInput::Choices(c) => solved_hole_case(ctx, &mut Ch::new(c)),
                     _ => Err(Failure::new("this part replays from choices", "")),
                 })),
             },
